@@ -237,6 +237,12 @@ class Builder:
                 for i, c in enumerate(pc[1]):
                     self.st.pc.append(z3.Select(arr, z3.simplify(off + i)) == ord(c))
                 ln = z3.IntVal(len(pc[1]))
+            elif pc[0] == "anycase":
+                # these letters, each in either case (non-letters as they are)
+                for i, c in enumerate(pc[1]):
+                    sel = z3.Select(arr, z3.simplify(off + i))
+                    self.st.pc.append(z3.Or(sel == ord(c.lower()), sel == ord(c.upper())))
+                ln = z3.IntVal(len(pc[1]))
             elif pc[0] == "chars":
                 # any characters with code in [lo, hi] except the listed ones
                 _, rname, lo, hi, exclude, minlen = pc
